@@ -164,6 +164,21 @@ def rule_state_noninterference(ctx, crate, rule="R-STATE-NONINTERFERENCE"):
                                     "%s (writes logical state) is called only on one outcome of %s" % (cc.path, dep[0].path), cfg)
             ctx.ok(rule, "switch-on:%s" % K.meth(dep[0].path), b.name, "%s:%d" % (b.file, t.get("line", 0)),
                    "regions control-dependent on %s contain no logical-state write (%d blocks scanned)" % (dep[0].path, sum(len(r) for r in regions)), cfg)
+            # (3) implicit flow: a value chosen inside such a region (or a source result itself) must not become an argument of a
+            # state-writing call later on (`let how = if target.is_hidden() { A } else { B }; self.finish_using_style(now, how)`)
+            tainted_bbs = set().union(*regions) if regions else set()
+            for cc in b.calls():
+                if cc.bb in tainted_bbs or cc.matches(*SOURCES) or cc.matches(*IO_SOURCES):
+                    continue
+                if not [x for x in [cc.path] + crate.resolve_targets(cc) if x in writes]:
+                    continue
+                asl = b.slice_args(cc)
+                via = [d for d in asl.defs if d.get("kind") in ("assign", "call") and d.get("bb") in tainted_bbs and cc.bb in b.reach_after(d["bb"])]
+                direct = [c for c in asl.calls if c.bb in src_bbs]
+                if via or direct:
+                    ctx.bad(rule, "arg-of:%s" % cc.path, b.name, cc.loc(),
+                            "an argument of %s (writes logical state) is %s %s: hidden and visible bars end in different states" % (
+                                cc.path, "chosen under a test of" if via else "computed from", dep[0].path), cfg)
     ctx.floor(rule, n_src, 20, cfg, "draw-target / draw-result source call sites")
     ctx.floor(rule, n_sinks, 20, cfg, "logical-state sinks")
     ctx.extra.setdefault("state_writers", {})[cfg] = len(writes)
